@@ -7,7 +7,8 @@ typedef struct InstExport { const char* name; const char* sig; const char* kind;
 extern const InstExport inst_exports[];
 typedef struct InstEnv { void* mem; void* tab; unsigned goff; unsigned long long ginit; } InstEnv;
 InstEnv* iglue_env_new(unsigned mem_min, unsigned mem_max, unsigned goff, unsigned long long ginit);
-void* iglue_instantiate(InstEnv* env);
+void* iglue_instantiate(InstEnv* env, int dirty);
+void iglue_reinstantiate(void* inst, InstEnv* env);
 void* iglue_new_child(void* parent, InstEnv* env);
 unsigned char* iglue_mem_data(void* inst);
 unsigned iglue_mem_pages(void* inst);
